@@ -1466,10 +1466,21 @@ impl FwdOracle {
 						self.pairs.get_mut(&hash).unwrap().down = None;
 						return self.on_emit(sim, at, from, _to, wire);
 					}
+					// other symptom of the listed stale-reload family: the manager B restarted from was written before
+					// the forward (the inbound HTLC sat in the upstream Channel's monitor_pending_update_adds while an
+					// upstream monitor update was in flight), so it forwards the HTLC a second time
+					let key = if p.stale_restart_up_inflight {
+						"double-forward/manager-snapshot-predates-forward/monitor-pending-update-adds"
+					} else if p.stale_restart {
+						"double-forward/manager-snapshot-predates-forward"
+					} else {
+						"double-forward"
+					};
 					return Err(fail(
 						"double-forward",
-						format!("B forwarded the HTLC received on chan {} (id {}) twice: first as chan {} id {}, now as chan {} id {}", p.up_chan, p.up_id, d.chan, d.id, chan, m.htlc_id),
-					));
+						format!("B forwarded the HTLC received on chan {} (id {}) twice: first as chan {} id {} (delivered: {}), now as chan {} id {}; B restarted from a manager snapshot older than the forward: {}, with monitor updates of the upstream channel in flight when it was written: {}", p.up_chan, p.up_id, d.chan, d.id, d.delivered, chan, m.htlc_id, p.stale_restart, p.stale_restart_up_inflight),
+					)
+					.with_key(key));
 				}
 				if chan == p.up_chan {
 					return Err(fail("forward-to-origin", format!("B forwarded an HTLC back over the channel it arrived on (chan {})", chan)));
